@@ -8,7 +8,7 @@ META = dict(
                 'are compared event by event (exact order and emission position) with the reference interpreter: a window opens at items 0, s, 2s, ..., receives the next w consecutive items, '
                 'full windows close on their w-th item and the remaining partial windows close at key completion in opening order. The digest is an injective linear form of the window contents, '
                 'so equality for all values means each window received exactly its consecutive items in order. Also under group_by with interleaved keys and nested in roll / split. An inductive one-step form presets the real store, through its public API, to the state the invariant prescribes for an arbitrary item counter n = q*P + r (q >= 0 symbolic and unbounded, P one turn of the slot ring) and pushes one item or the key completion: emitted create / item / complete events and the post-state must be those prescribed for n+1 - with the whole runs as base case this covers streams of any length.',
-    bounds=dict(quick='(w, s) in 1..4 x 1..4, N <= 7 items (several wraps of the slot ring), any integer values; group_by(mod2) N <= 4; nested N <= 5; inductive step for (w, s) in 1..6 x 1..6, counter unbounded',
+    bounds=dict(quick='(w, s) in 1..4 x 1..4, N <= 7 items (several wraps of the slot ring), any integer values; group_by(mod2) N <= 4; nested N <= 5; inductive step for (w, s) in 1..6 x 1..6, counter unbounded; long runs with windows up to 257 and rings of 17-33 slots; a failing one-step obligation is only reported when the deviation is confirmed through the public API (real roll run from an empty key for the n <= 2^18 items of the counterexample)',
                 thorough='(w, s) in 1..6 x 1..6, N <= 13; group_by N <= 6; nested N <= 7; inductive step for (w, s) in 1..12 x 1..12'),
     outside='w or s above the grid; streams longer than the bound (roll state is a counter modulo the ring: see the wraps covered)',
     assumptions=['reference interpreter vp/refsem.py transcribes the property statement', 'synchronous single-threaded delivery'],
